@@ -8,10 +8,10 @@ def m(prop, name, file, find, replace, rule, construct, note=""):
 
 def from_patch(prop, name, patch, rule, construct, note=""):
     """one edit per hunk: find = old side (context + removed lines), replace = new side (context + added lines)"""
-    edits=[]; cur=None; old=[]; new=[]
+    edits=[]; cur=None; old=[]; new=[]; line=[0]
     def flush():
         if cur and (old or new):
-            edits.append(dict(file=cur, find="".join(old), replace="".join(new)))
+            edits.append(dict(file=cur, find="".join(old), replace="".join(new), line=line[0]))
     for ln in open(os.path.join(os.path.dirname(os.path.abspath(__file__)), "..", patch)):
         if ln.startswith("diff --git"):
             flush(); old=[]; new=[]; cur=None
@@ -21,6 +21,7 @@ def from_patch(prop, name, patch, rule, construct, note=""):
             pass
         elif ln.startswith("@@"):
             flush(); old=[]; new=[]
+            line[0]=int(ln.split()[1].lstrip("-").split(",")[0])
         elif cur is not None:
             if ln.startswith("+"): new.append(ln[1:])
             elif ln.startswith("-"): old.append(ln[1:])
@@ -478,7 +479,7 @@ m("C07","validatebasic-allows-zero-size","x/storage/types/message_post_file.go",
 m("C07","validatebasic-allows-negative-proofs","x/storage/types/message_post_file.go",
   'if msg.MaxProofs <= 0 {','if msg.MaxProofs == 0 {',"C07/R3","postfile:unvalidated:MaxProofs")
 m("C07","postfile-drop-space-check","x/storage/keeper/msg_server_post_file.go",
-  'if paymentInfo.SpaceUsed > paymentInfo.SpaceAvailable {','if paymentInfo.SpaceUsed > paymentInfo.SpaceAvailable && msg.MaxProofs > 3 {',"C07/R2","within-purchased-space")
+  'if totalSize > paymentInfo.SpaceAvailable-paymentInfo.SpaceUsed {','if totalSize > paymentInfo.SpaceAvailable-paymentInfo.SpaceUsed && msg.MaxProofs > 3 {',"C07/R2","within-purchased-space")
 m("C07","postfile-expired-plan-accepted","x/storage/keeper/msg_server_post_file.go",
   'if paymentInfo.End.Before(ctx.BlockTime()) {','if paymentInfo.End.Before(paymentInfo.Start) {',"C07/R2","plan-not-expired")
 m("C07","postfile-charge-only-size","x/storage/keeper/msg_server_post_file.go",
